@@ -6,6 +6,7 @@ its rename-to-self shortcut), what Deleter and MetadataSetter touch, and that
 the overwrite mode given to a DirectoryNode operation reaches the Adder
 (DESIGN.md section 5, C20)."""
 from sa.h import *
+from sa.cfg import reaching_defs
 
 EXPLANATION = (
     "Decided (structural, all paths): (1) Adder.modify stores children[name] for a name already present only "
@@ -233,6 +234,10 @@ def _loop_stale_uses(fn, cfg, it):
     return out
 
 
+def _mentions(e, name):
+    return e is not None and any(isinstance(x, ast.Name) and x.id == name for x in own_nodes(e, into_lambda=True))
+
+
 def _contains_modify_call(e):
     return any(isinstance(x, ast.Call) and call_tail(x) == "modify" for x in own_nodes(e))
 
@@ -243,8 +248,9 @@ def run(ctx: Context):
 
     # -- 1. Adder.modify overwrite gates ------------------------------------
     with ctx.rule("C20.1", "R3", "Adder.modify: children[name] for an existing name is stored only with overwrite truthy "
-                  "and not (ONLY_FILES and existing child is a directory); the old metadata feeds update_metadata",
-                  expected=3) as r:
+                  "and not (ONLY_FILES and existing child is a directory); the old metadata feeds update_metadata; "
+                  "an add is refused only in those two cases; every item is handled with its own locals; Adder keeps its entries",
+                  expected=4) as r:
         exact = []
         init, OW, ow_store = _init_attr_of_param(idx, MOD + ":Adder", "overwrite", exact)
         r.site(init, ow_store, "keeps overwrite as " + OW)
@@ -272,23 +278,32 @@ def run(ctx: Context):
             for cc in um_calls:
                 r.site(fn, cc, "update_metadata call")
 
-            INIT = (0, False, False, frozenset())
+            # state: membership of the name (0 unknown / 1 present / 2 absent), overwrite seen truthy, ONLY_FILES-and-
+            # directory excluded, locals holding the existing entry's metadata, overwrite seen falsy, overwrite seen
+            # equal to ONLY_FILES, existing child seen to be a directory, locals holding fresh (None / {}) metadata
+            INIT = (0, False, False, frozenset(), False, False, False, frozenset())
 
             def transfer(n, lab, nxt, st, K=K, C=C, knames=knames, isdir=isdir, oldmd=oldmd, mdvars=mdvars):
                 if lab == "exc":
                     return st
-                member, ow, of, md = st
+                member, ow, of, md, owf, ofeq, isd, fresh = st
                 if n.kind == "iter":
                     return INIT if lab == "iter" else st
                 ns = node_stores(n)
                 if ns & knames or (cname + "[]") in ns:
-                    member, ow, of = 0, False, False
+                    member, ow, of, isd = 0, False, False, False
                 if n.kind == "stmt" and isinstance(n.ast, ast.Assign):
+                    val = n.ast.value
                     for mv in mdvars & ns:
-                        if _has_sub_norm(fnorm, n, n.ast.value, oldmd):
-                            md = md | {mv}
-                        elif not (isinstance(n.ast.value, ast.Call) and call_tail(n.ast.value) == "update_metadata"):
-                            md = md - {mv}
+                        if _has_sub_norm(fnorm, n, val, oldmd):
+                            md, fresh = md | {mv}, fresh - {mv}
+                        elif (isinstance(val, ast.Constant) and val.value is None) or \
+                                (isinstance(val, ast.Dict) and not val.keys):
+                            md, fresh = md - {mv}, fresh | {mv}
+                        elif not (isinstance(val, ast.Call) and call_tail(val) == "update_metadata"):
+                            md, fresh = md - {mv}, fresh - {mv}
+                elif mdvars & ns:
+                    md, fresh = md - ns, fresh - ns
                 f = fnorm.edge_fact(n, lab)
                 if f:
                     op, l, rr = f
@@ -297,18 +312,25 @@ def run(ctx: Context):
                     if (op == "truth" and l == OW) or (op in ("is not", "!=") and {l, rr} == {"False", OW}) \
                             or (op in ("is", "==") and {l, rr} == {"True", OW}):
                         ow = True
+                    if (op == "false" and l == OW) or (op in ("is", "==") and {l, rr} == {"False", OW}):
+                        owf = True
                     if op in ("!=", "is not") and OW in (l, rr) and any(only_files.match(s or "") for s in (l, rr)):
                         of = True
+                    if op in ("==", "is") and OW in (l, rr) and any(only_files.match(s or "") for s in (l, rr)):
+                        ofeq = True
                     if op == "false" and l == isdir:
                         of = True
+                    if op == "truth" and l == isdir:
+                        isd = True
                     if op in ("is", "==") and {l, rr} == {"True", OW}:
                         of = True    # overwrite is True, hence not ONLY_FILES
-                return (member, ow, of, md)
+                return (member, ow, of, md, owf, ofeq, isd, fresh)
             visited, parent = explore(cfg, INIT, transfer)
             r.count(len(visited))
             reported = set()
+            refusals = cfg.find(raises("ExistingChildError"))
             for (nid, st) in sorted(visited, key=lambda x: (x[0], str(x[1]))):
-                member, ow, of, md = st
+                member, ow, of, md, owf, ofeq, isd, fresh = st
                 if nid == sn.id and member != 2:
                     if not ow and "ow" not in reported:
                         reported.add("ow")
@@ -331,6 +353,27 @@ def run(ctx: Context):
                             r.violation(fn, fn.loc(cc), "replacing an existing entry: update_metadata is not given the "
                                         "existing entry's metadata (%s), so its linkcrtime is lost" % src(fn, a0),
                                         witness(cfg, parent, (nid, st)))
+                if member == 2 and n.kind == "stmt" and "fresh" not in reported:
+                    for cc in calls_at(n, "update_metadata"):
+                        a0 = arg(cc, 0, "metadata")
+                        ok = (isinstance(a0, ast.Name) and a0.id in fresh) or \
+                             (isinstance(a0, ast.Constant) and a0.value is None) or \
+                             (isinstance(a0, ast.Dict) and not a0.keys)
+                        if not ok:
+                            reported.add("fresh")
+                            r.violation(fn, fn.loc(cc), "adding a name that is not in the directory: update_metadata is "
+                                        "given %s, which is not fresh (None) metadata of this item - the new entry inherits "
+                                        "the metadata (linkcrtime) of another entry" % src(fn, a0),
+                                        witness(cfg, parent, (nid, st)))
+                if any(n is x for x in refusals) and ("refuse", nid) not in reported:
+                    if not (member == 1 and (owf or (ofeq and isd))):
+                        reported.add(("refuse", nid))
+                        r.violation(fn, fn.loc(n.ast), "ExistingChildError can be raised although the map semantics allow "
+                                    "the add (%s): an add is refused only for an existing name with overwrite falsy, or "
+                                    "with overwrite == ONLY_FILES and an existing directory" % (
+                                        "the name was not seen to exist" if member != 1 else
+                                        "overwrite was not seen falsy, nor ONLY_FILES together with an existing directory"),
+                                    witness(cfg, parent, (nid, st)))
             # the stored pair: (child of the entry, result of update_metadata)
             rd = fnorm.rd
             ok_pair = isinstance(v, ast.Tuple) and len(v.elts) == 2
@@ -349,10 +392,34 @@ def run(ctx: Context):
         bad = find_path_avoiding(cfg, lambda n: n.kind == "exit", gate_node=_pack_return_gate(fn, cfg, fnorm, cname))
         for (n, w) in bad:
             r.violation(fn, fn.loc(), "Adder.modify can return something else than the re-packed children map", w)
+        # every item of the loop is handled with its own locals
+        loops = [n for n in cfg.nodes if n.kind == "iter"]
+        if not loops:
+            raise AnchorVanished("Adder.modify no longer loops over the entries")
+        for it in loops:
+            for (n, name, w) in _loop_stale_uses(fn, cfg, it):
+                r.violation(fn, fn.loc(n.ast), "'%s' is read for an item before this iteration assigned it: the value "
+                            "of the previous entry leaks into this one (path: %s)" % (name, w.brief()), w)
+        _check_readonly_wrap(r, fn, cfg, fnorm)
+        # Adder.__init__ keeps the entries it was given
+        ex2 = []
+        _i, ENT, ent_store = _init_attr_of_param(idx, MOD + ":Adder", "entries", ex2)
+        r.site(init, ent_store, "keeps entries as " + ENT)
+        icfg = init.cfg()
+        inorm = FlowNorm(init)
+        for n in icfg.nodes:
+            if n.kind == "stmt" and "entries" in node_stores(n) and not _mentions(getattr(n.ast, "value", None), "entries"):
+                for (t, w) in find_path_avoiding(icfg, lambda x, n=n: x is n,
+                                                 gate_edge=lambda m, lab: _none_or_falsy(inorm.edge_fact(m, lab), "entries")):
+                    r.violation(init, init.loc(n.ast), "the entries given to Adder are replaced (%s) although they were not "
+                                "seen to be None: the add silently adds nothing" % src(init, n.ast), w)
+        r.require(any(ENT in depends_on(fn, it.ast.iter) for it in loops), fn, fn.loc(),
+                  "Adder.modify does not iterate over %s" % ENT)
 
     # -- 2. update_metadata ---------------------------------------------------
     with ctx.rule("C20.2", "R1/R2", "update_metadata: linkcrtime stored only when absent; linkmotime = now on every path, "
-                  "in the returned metadata's 'tahoe' dict; the old 'tahoe' dict survives replacement of the metadata",
+                  "in the returned metadata's 'tahoe' dict; the old 'tahoe' dict survives replacement of the metadata; "
+                  "the old metadata is discarded only when None; the caller's metadata is taken when given",
                   expected=5) as r:
         fn = idx.func(MOD + ":update_metadata")
         ps = fn.params
@@ -360,7 +427,7 @@ def run(ctx: Context):
             raise AnchorVanished("update_metadata signature changed: %s" % ps)
         P0, P1, P2 = ps
         cfg = fn.cfg()
-        fnorm = FlowNorm(fn)
+        fnorm = FlowNorm(fn, keep=(P0,))     # the metadata being updated is re-bound on some paths: keep its name
         subs = _subscript_assigns(cfg)
         # (a) linkcrtime
         crt = [(n, c, k, v) for (n, c, k, v) in subs if _const_key(k, "linkcrtime")]
@@ -427,12 +494,22 @@ def run(ctx: Context):
                 r.violation(fn, fn.loc(rn.ast), "the dict carrying linkcrtime/linkmotime is not stored as %s['tahoe'] "
                             "on a path to the return (path: %s)" % (R, w.brief()), w)
         # (d) replacement by the caller's metadata keeps the old 'tahoe'
-        repl = [n for n in cfg.nodes if n.kind == "stmt" and isinstance(n.ast, ast.Assign)
+        repl_all = [n for n in cfg.nodes if n.kind == "stmt" and P0 in node_stores(n)]
+        repl = [n for n in repl_all if isinstance(n.ast, ast.Assign)
                 and any(isinstance(t, ast.Name) and t.id == P0 for t in n.ast.targets)
                 and P1 in depends_on(fn, n.ast.value)]
         if not repl:
             raise AnchorVanished("update_metadata: replacement of %s by the caller's %s not found" % (P0, P1))
         dels = _subscript_deletes(cfg)
+        for n in repl_all:
+            if n in repl or _mentions(getattr(n.ast, "value", None), P0):
+                continue
+            # any other re-binding of the old metadata (the "None -> {}" default) needs the old metadata to be absent
+            r.site(fn, n.ast, "old metadata re-bound")
+            for (t, w) in find_path_avoiding(cfg, lambda x, n=n: x is n,
+                                             gate_edge=lambda m, lab: _none_or_falsy(fnorm.edge_fact(m, lab), P0)):
+                r.violation(fn, fn.loc(n.ast), "the existing metadata is discarded (%s) although it was not seen to be "
+                            "None (linkcrtime is lost; path: %s)" % (src(fn, n.ast), w.brief()), w)
         for n in repl:
             r.site(fn, n.ast, "metadata replaced by caller's")
             V = fnorm.norm(n, n.ast.value)
@@ -446,7 +523,7 @@ def run(ctx: Context):
 
             def old_has_none(m, lab):
                 f = fnorm.edge_fact(m, lab)
-                return bool(f) and f[0] == "not in" and f[1] == repr("tahoe") and f[2] == P0
+                return (bool(f) and f[0] == "not in" and f[1] == repr("tahoe") and f[2] == P0) or _none_or_falsy(f, P0)
             for (t, w) in find_path_avoiding(cfg, lambda x, n=n: x is n, gate_node=carried, gate_edge=old_has_none):
                 r.violation(fn, fn.loc(n.ast), "the metadata is replaced by the caller's without carrying over the old "
                             "'tahoe' dict (linkcrtime is lost; path: %s)" % w.brief(), w)
@@ -469,7 +546,39 @@ def run(ctx: Context):
             for (t, w) in find_path_avoiding(cfg, lambda x, n=n: x is n, gate_node=dropped, gate_edge=new_has_none):
                 r.violation(fn, fn.loc(n.ast), "a caller-supplied 'tahoe' dict can survive into the stored metadata "
                             "(the caller could set linkcrtime; path: %s)" % w.brief(), w)
-        r.count(len(cfg.nodes) * 6)
+        # (e) a link-creation time taken from somewhere else than the clock is known not to be None
+        for (n, c, k, v) in crt:
+            vv = fnorm.resolve(n, v)
+            if isinstance(vv, ast.Name) and vv.id == P2:
+                continue
+            V = fnorm.norm(n, v)
+            kill = stores(v.id) if isinstance(v, ast.Name) else None
+            for (t, w) in find_path_avoiding(cfg, lambda x, n=n: x is n, kill=kill,
+                                             gate_edge=lambda m, lab, V=V: _not_none_or_truthy(fnorm.edge_fact(m, lab), V)):
+                r.violation(fn, fn.loc(n.ast), "'linkcrtime' is set to %s, which is neither the time %s of this update nor "
+                            "known to be a recorded time (it can be None: the entry never gets a link-creation time; "
+                            "path: %s)" % (src(fn, v), P2, w.brief()), w)
+        # (f) the caller's metadata, when given, is what is stored
+        repl_ids = {n.id for n in repl}
+
+        def tr(n, lab, nxt, st):
+            if lab == "exc":
+                return st
+            given, taken = st
+            if n.id in repl_ids:
+                taken = True
+            f = fnorm.edge_fact(n, lab)
+            if _not_none_or_truthy(f, P1):
+                given = True
+            return (given, taken)
+        visited, parent = explore(cfg, (False, False), tr)
+        for (nid, st) in sorted(visited):
+            if cfg.nodes[nid].kind == "exit" and st == (True, False):
+                r.violation(fn, fn.loc(), "update_metadata can return without taking over the caller's %s although it was "
+                            "seen not to be None (set-metadata / add with metadata stores the old metadata)" % P1,
+                            witness(cfg, parent, (nid, st)))
+                break
+        r.count(len(cfg.nodes) * 6 + len(visited))
 
     # -- 3. move_child_to ----------------------------------------------------
     with ctx.rule("C20.3", "E7/R1", "move_child_to: delete(current) is a callback registered after the callback doing "
@@ -547,6 +656,27 @@ def run(ctx: Context):
                 dep = depends_on(g, a) if a is not None else set()
                 r.require(a is not None and bool(dep & set(gp)), g, g.loc(c),
                           "set_node's %s does not come from the fetched (child, metadata) pair" % nm)
+        # the new name is the caller's, unless none was given
+        NNP = ps[2] if ps[2] != "overwrite" else None
+        if NNP is None:
+            raise AnchorVanished("move_child_to: parameter carrying the new name not found: %s" % ps)
+        for (g, c) in set_calls:
+            a0 = arg(c, 0, "namex")
+            if not isinstance(a0, ast.Name):
+                continue
+            defs = [n for n in cfg.nodes if n.kind == "stmt" and a0.id in node_stores(n)]
+            r.require(bool(defs) or a0.id == NNP, g, g.loc(c), "the name given to set_node (%s) is not a local of "
+                      "move_child_to derived from %s" % (a0.id, NNP))
+            r.require(not defs or any(NNP in depends_on(fn, n.ast.value) for n in defs if isinstance(n.ast, ast.Assign)),
+                      g, g.loc(c), "the name given to set_node never comes from the caller's %s" % NNP)
+            for n in defs:
+                if isinstance(n.ast, ast.Assign) and NNP in depends_on(fn, n.ast.value):
+                    continue
+                for (t, w) in find_path_avoiding(cfg, lambda x, n=n: x is n,
+                                                 gate_edge=lambda m, lab: _none_or_falsy(fnorm.edge_fact(m, lab), NNP)):
+                    r.violation(fn, fn.loc(n.ast), "the new name is set to %s although the caller's %s was not seen to be "
+                                "None: a rename keeps the old name (and, in the same directory, does nothing; path: %s)" % (
+                                    src(fn, n.ast), NNP, w.brief()), w)
         gcfg = gS.cfg()
         gnorm = FlowNorm(gS)
 
@@ -620,7 +750,8 @@ def run(ctx: Context):
 
     # -- 4. Deleter.modify -----------------------------------------------------
     with ctx.rule("C20.4", "R1/R4", "Deleter.modify: the only mutation of the children map is 'del children[self.name]', "
-                  "after the must_be_directory / must_be_file gates; the re-packed map is returned", expected=3) as r:
+                  "after the must_be_directory / must_be_file gates; the re-packed map is returned; no-op and refusals only "
+                  "in their documented cases", expected=5) as r:
         fn = idx.func(MOD + ":Deleter.modify")
         cfg = fn.cfg()
         fnorm = FlowNorm(fn)
@@ -711,6 +842,71 @@ def run(ctx: Context):
             for (s, w) in find_path_from_to_avoiding(cfg, lambda x, dn=dn: x is dn, pk):
                 r.violation(fn, fn.loc(dn.ast), "after deleting the entry Deleter.modify does not return the re-packed "
                             "children map: the delete is not written", w)
+        # outcomes: no-op / NoSuchChildError only for an absent name, ChildOfWrongTypeError only for the requested
+        # type mismatch, and a first-time delete of an absent name with must_exist does not succeed
+        _i, MEX, _s = _init_attr_of_param(idx, MOD + ":Deleter", "must_exist")
+        if len(fn.params) < 4:
+            raise AnchorVanished("Deleter.modify signature changed: %s" % fn.params)
+        FT = fn.params[3]
+        dids = {n.id for n in dnodes}
+        cexpr = ast.Name(id=cname, ctx=ast.Load())
+        INIT4 = (0, False, False, False, False, False, False, False)
+
+        def tr4(n, lab, nxt, st):
+            if lab == "exc":
+                return st
+            member, ft, me, mbd, mbf, isf, isd, deleted = st
+            if n.id in dids:
+                deleted = True
+            f = fnorm.edge_fact(n, lab)
+            if f:
+                op, l, rr = f
+                if op in ("in", "not in") and l == NAME and rr == fnorm.norm(n, cexpr):
+                    member = 1 if op == "in" else 2
+                if op == "truth":
+                    ft = ft or l == FT
+                    me = me or l == MEX
+                    mbd = mbd or l == MBD
+                    mbf = mbf or l == MBF
+                    if n.kind == "test" and isinstance(n.ast, ast.Call) and len(n.ast.args) == 1 \
+                            and call_name(n.ast) in ("IFileNode.providedBy", "IDirectoryNode.providedBy") \
+                            and old_expr_ok(n, n.ast.args[0]):
+                        if call_name(n.ast).startswith("IFileNode"):
+                            isf = True
+                        else:
+                            isd = True
+            return (member, ft, me, mbd, mbf, isf, isd, deleted)
+        visited, parent = explore(cfg, INIT4, tr4)
+        r.count(len(visited))
+        wrong_type = cfg.find(raises("ChildOfWrongTypeError"))
+        no_such = cfg.find(raises("NoSuchChildError"))
+        for n in wrong_type + no_such:
+            r.site(fn, n.ast, "refusal")
+        r.require(bool(no_such), fn, fn.loc(), "Deleter.modify never raises NoSuchChildError: deleting a name that does not "
+                  "exist (with %s) reports success" % MEX)
+        reported = set()
+        for (nid, st) in sorted(visited, key=lambda x: (x[0], str(x[1]))):
+            member, ft, me, mbd, mbf, isf, isd, deleted = st
+            n = cfg.nodes[nid]
+            if any(n is x for x in wrong_type) and nid not in reported and not ((mbd and isf) or (mbf and isd)):
+                reported.add(nid)
+                r.violation(fn, fn.loc(n.ast), "ChildOfWrongTypeError can be raised without (%s and the child is a file) or "
+                            "(%s and the child is a directory): an unrestricted delete is refused" % (MBD, MBF),
+                            witness(cfg, parent, (nid, st)))
+            if any(n is x for x in no_such) and nid not in reported and not (member == 2 and me):
+                reported.add(nid)
+                r.violation(fn, fn.loc(n.ast), "NoSuchChildError can be raised although %s" % (
+                    "the name was not seen to be absent" if member != 2 else "%s was not seen truthy" % MEX),
+                    witness(cfg, parent, (nid, st)))
+            if n.kind == "exit" and not deleted and "exit" not in reported:
+                if member != 2:
+                    reported.add("exit")
+                    r.violation(fn, fn.loc(), "Deleter.modify can return without deleting although the name was not seen "
+                                "to be absent: the delete silently does nothing", witness(cfg, parent, (nid, st)))
+                elif ft and me:
+                    reported.add("exit")
+                    r.violation(fn, fn.loc(), "a first-time delete of an absent name with %s returns as if it had "
+                                "succeeded" % MEX, witness(cfg, parent, (nid, st)))
         r.count(len(cfg.nodes) * 3)
 
     # -- 5. MetadataSetter.modify ------------------------------------------------
@@ -764,6 +960,7 @@ def run(ctx: Context):
         bad = find_path_avoiding(cfg, lambda n: n.kind == "exit", gate_node=_pack_return_gate(fn, cfg, fnorm, cname))
         for (n, w) in bad:
             r.violation(fn, fn.loc(), "MetadataSetter.modify can return something else than the re-packed children map", w)
+        _check_readonly_wrap(r, fn, cfg, fnorm)
         r.count(len(cfg.nodes) * 2)
 
     # -- 6. overwrite forwarded ----------------------------------------------------
@@ -806,3 +1003,163 @@ def run(ctx: Context):
             r.require(fwd > 0, m, m.loc(), "%s accepts an overwrite mode but never hands it to Adder / set_node" % short(m))
         if n_methods == 0:
             raise AnchorVanished("no DirectoryNode method takes an overwrite parameter")
+
+    # -- 7. the operations hand their arguments to the modifier and the modifier to the mutable file --------------
+    with ctx.rule("C20.7", "R4/E7", "every DirectoryNode operation that builds an Adder / Deleter / MetadataSetter passes "
+                  "its arguments on, gives every item to the Adder, writes through self._node.modify(modifier.modify) and "
+                  "returns that Deferred; create_subdirectory registers the linking step", expected=16) as r:
+        ci = idx.cls(DN)
+        # Adder.set_node keeps the item
+        asn = idx.func(MOD + ":Adder.set_node")
+        aps = first_positional_params(asn)
+        if len(aps) != 3:
+            raise AnchorVanished("Adder.set_node signature changed: %s" % aps)
+        _i, ENT, _s = _init_attr_of_param(idx, MOD + ":Adder", "entries", [])
+        acfg = asn.cfg()
+        anorm = FlowNorm(asn)
+        kept = [(n, c, k, v) for (n, c, k, v) in _subscript_assigns(acfg) if attr_path(c) == ENT]
+        if not kept:
+            raise AnchorVanished("Adder.set_node no longer stores into %s" % ENT)
+        for (n, c, k, v) in kept:
+            r.site(asn, n.ast, "item kept")
+            kk = anorm.resolve(n, k)
+            kdep = depends_on(asn, kk)
+            r.require(aps[0] in kdep and not (set(aps[1:]) & kdep), asn, asn.loc(n.ast),
+                      "Adder.set_node files the item under %s, not under the given name %s" % (src(asn, k), aps[0]))
+            vv = anorm.resolve(n, v)
+            okv = isinstance(vv, ast.Tuple) and len(vv.elts) == 2 \
+                and isinstance(anorm.resolve(n, vv.elts[0]), ast.Name) and anorm.resolve(n, vv.elts[0]).id == aps[1] \
+                and aps[2] in depends_on(asn, vv.elts[1]) and not ({aps[0], aps[1]} & depends_on(asn, vv.elts[1]))
+            r.require(okv, asn, asn.loc(n.ast), "Adder.set_node keeps %s, not the pair (%s, %s)" % (src(asn, v), aps[1], aps[2]))
+        for (t, w) in find_path_avoiding(acfg, lambda x: x.kind == "exit", gate_node=lambda x: any(x is n for (n, c, k, v) in kept)):
+            r.violation(asn, asn.loc(), "Adder.set_node can return without keeping the item", w)
+
+        MODIFIERS = {"Adder": MOD + ":Adder", "Deleter": MOD + ":Deleter", "MetadataSetter": MOD + ":MetadataSetter"}
+        n_ops = 0
+
+        def bodies(m):
+            yield m, None
+            for g in m.nested.values():
+                yield g, m
+        for m in ci.methods.values():
+            for (g, outer) in bodies(m):
+                gcfg = g.cfg()
+                for bn in gcfg.nodes:
+                    if bn.kind != "stmt" or not isinstance(bn.ast, ast.Assign) or not isinstance(bn.ast.value, ast.Call):
+                        continue
+                    ctor = bn.ast.value
+                    kind = call_tail(ctor)
+                    if kind not in MODIFIERS or not isinstance(ctor.func, ast.Name):
+                        continue
+                    locs = [t.id for t in bn.ast.targets if isinstance(t, ast.Name)]
+                    if len(locs) != 1:
+                        raise AnchorVanished("%s: %s(..) is not bound to one local" % (short(g), kind))
+                    X = locs[0]
+                    n_ops += 1
+                    r.site(g, ctor, "%s built" % kind)
+                    gnorm = FlowNorm(g)
+                    cps = first_positional_params(idx.func(MODIFIERS[kind] + ".__init__"))
+                    mps = [p for p in first_positional_params(m)]
+                    # (a) same-named parameters are passed on unchanged in meaning
+                    for p in mps:
+                        if p not in cps or p == "overwrite":     # overwrite: C20.6
+                            continue
+                        a = arg(ctor, cps.index(p), p)
+                        if a is None and p == "entries" and kind == "Adder":
+                            continue    # items are given one by one, checked below
+                        dep = depends_on(m, a) if a is not None else set()
+                        if outer is not None and a is not None:
+                            dep |= depends_on(g, a)
+                        others = {q for q in mps if q != p and q in dep}
+                        r.require(a is not None and p in dep | ({p} if isinstance(a, ast.Name) and a.id == p else set())
+                                  and not others, g, g.loc(ctor),
+                                  "%s does not pass its %s on to %s(..): %s" % (short(m), p, kind, src(g, a) if a is not None else "missing"))
+                    # (b) the write: self._node.modify(X.modify), whose Deferred is what is returned afterwards
+                    wr = [wn for wn in gcfg.nodes if wn.kind == "stmt" for cc in calls_at(wn, "modify")
+                          if cc.args and isinstance(cc.args[0], ast.Attribute) and cc.args[0].attr == "modify"
+                          and attr_path(cc.args[0].value) == X]
+                    if not wr:
+                        raise AnchorVanished("%s: %s.modify is not handed to self._node.modify" % (short(g), X))
+                    wn = wr[0]
+                    r.site(g, wn.ast, "write")
+                    seen, work = {wn.id}, [wn.id]
+                    while work:
+                        cur = work.pop()
+                        for (d, lab) in gcfg.succ[cur]:
+                            if lab != "exc" and d not in seen:
+                                seen.add(d)
+                                work.append(d)
+                    rd = gnorm.rd
+                    rets = [rn for rn in gcfg.find(is_return) if rn.id in seen]
+                    if not rets:
+                        r.violation(g, g.loc(wn.ast), "%s does not return after starting the write" % short(g))
+                    for rn in rets:
+                        rv = rn.ast.value
+                        ok = rv is not None and _contains_modify_call(rv)
+                        if not ok and isinstance(rv, ast.Name):
+                            ok = _last_def_is(gcfg, rd, rn, rv.id, lambda dn: dn.kind == "stmt" and isinstance(
+                                dn.ast, ast.Assign) and _contains_modify_call(dn.ast.value))
+                        r.require(ok, g, g.loc(rn.ast), "%s returns %s, not the Deferred of the write: the caller cannot "
+                                  "wait for (or see the failure of) the edit" % (short(g), src(g, rv) if rv is not None else "None"))
+                    # (c) an Adder built without entries receives every item through X.set_node
+                    if kind == "Adder" and arg(ctor, cps.index("entries"), "entries") is None:
+                        gives = [sn for sn in gcfg.nodes if sn.kind == "stmt" for cc in calls_at(sn, "set_node")
+                                 if isinstance(cc.func, ast.Attribute) and attr_path(cc.func.value) == X]
+                        loops = [it for it in gcfg.nodes if it.kind == "iter"]
+                        gids = {sn.id for sn in gives}
+                        if not gives:
+                            r.violation(g, g.loc(ctor), "%s builds an empty Adder and never gives it an item (%s.set_node): the "
+                                        "operation writes the directory back unchanged" % (short(g), X))
+                            continue
+                        for sn in gives:
+                            r.site(g, sn.ast, "item given to the Adder")
+                        if not loops:
+                            for (t, w) in find_path_avoiding(gcfg, lambda x: x is wn, gate_node=lambda x: x.id in gids):
+                                r.violation(g, g.loc(wn.ast), "the write is reachable without %s.set_node(..): nothing is "
+                                            "added" % X, w)
+                            for sn in gives:
+                                for cc in calls_at(sn, "set_node"):
+                                    for i, a in enumerate(cc.args[:3]):
+                                        want = mps[i] if i < len(mps) else None
+                                        aa = gnorm.resolve(sn, a)
+                                        r.require(isinstance(aa, ast.Name) and aa.id == want, g, g.loc(cc),
+                                                  "%s.set_node is given %s where the operation's %s belongs" % (X, src(g, a), want))
+                        for it in loops:
+                            targets = {s_ for s_ in node_stores(it)}
+
+                            def tr(n, lab, nxt, st, it=it):
+                                if lab == "exc":
+                                    return st
+                                if n is it:
+                                    return 1 if lab == "iter" else 0
+                                if st == 1 and n.id in gids:
+                                    return 2
+                                return st
+                            visited, parent = explore(gcfg, 0, tr)
+                            r.count(len(visited))
+                            if (it.id, 1) in visited:
+                                r.violation(g, g.loc(it.ast), "an item of the loop can be skipped without %s.set_node(..): it is "
+                                            "silently not added" % X, witness(gcfg, parent, (it.id, 1)))
+                            for (n, name, w) in _loop_stale_uses(g, gcfg, it):
+                                r.violation(g, g.loc(n.ast), "'%s' is read for an item before this iteration assigned it: the "
+                                            "value of the previous item is added under this name (path: %s)" % (name, w.brief()), w)
+                            for sn in gives:
+                                for cc in calls_at(sn, "set_node"):
+                                    for i, a in enumerate(cc.args[:2]):
+                                        r.require(bool(depends_on(g, a) & targets), g, g.loc(cc),
+                                                  "%s.set_node argument %s does not come from the current item" % (X, src(g, a)))
+                    # (d) a modifier built inside a callback: the callback is registered on the returned Deferred
+                    if outer is not None:
+                        ocfg = outer.cfg()
+                        orets = {rn.ast.value.id for rn in ocfg.find(is_return) if isinstance(rn.ast.value, ast.Name)}
+                        regs = [x for x in registrations(outer) if x.recv in orets and isinstance(x.target, ast.Name)
+                                and x.target.id == g.name]
+                        if not regs:
+                            r.violation(outer, outer.loc(g.node), "%s is never registered on the Deferred that %s returns: the "
+                                        "new child is created but not linked into the directory" % (g.name, short(outer)))
+                        for x in regs:
+                            r.site(outer, x.call, "linking step registered")
+                            r.require(x.kind == "cb", outer, outer.loc(x.call), "%s registered as %s" % (g.name, x.kind))
+        if n_ops < 6:
+            raise AnchorVanished("only %d DirectoryNode operations build a modifier (expected set_node, set_nodes, "
+                                 "set_children, create_subdirectory, delete, set_metadata_for)" % n_ops)
